@@ -570,12 +570,15 @@ double Integrate_MC_Brute_Force(std::function<double(std::vector<double>&, const
 	return integral;
 }
 
+// State of Miser's private linear congruential generator (dithering and fall-back split dimension); reset by every call of Integrate_MC_Miser.
+static int Miser_iran = 0;
+
 void Miser(std::function<double(std::vector<double>&, const double)> func, std::vector<double>& region, const int npts,
 		   const double dith, double& ave, double& var, std::mt19937& PRNG)
 {
 	const int MNPT = 15, MNBS = 60;
 	const double PFAC = 0.1, TINY = 1.0e-30, BIG = 1.0e30;
-	static int iran = 0;
+	int& iran = Miser_iran;
 	int j, jb, n, ndim, npre, nptl, nptr;
 	double avel, varl, fracl, fval, rgl, rgm, rgr, s, sigl, siglb, sigr, sigrb;
 	double sum, sumb, summ, summ2;
@@ -681,6 +684,7 @@ double Integrate_MC_Miser(std::function<double(std::vector<double>&, const doubl
 
 	double dith = 0.0;
 	double average, var;
+	Miser_iran = 0;
 	Miser(func, region, ncall, dith, average, var, PRNG);
 	// double sd		= std::sqrt(var) * volume;
 	return MC_Volume(region) * average;
